@@ -6,6 +6,7 @@ import (
 	"os"
 	"os/exec"
 	"regexp"
+	"runtime"
 	"runtime/debug"
 	"sort"
 	"strconv"
@@ -35,6 +36,38 @@ func cached(key string, f func() []Lazy) []Lazy {
 	return l
 }
 
+var (
+	inMu    sync.Mutex
+	inCache = map[string][]Input{}
+)
+
+func cachedInputs(key string, f func() []Input) []Input {
+	inMu.Lock()
+	defer inMu.Unlock()
+	if l, ok := inCache[key]; ok {
+		return l
+	}
+	l := f()
+	inCache[key] = l
+	return l
+}
+
+// memoryWatchdog ends the worker once its heap exceeds limit: an input of a few hundred bytes whose handling needs
+// more than that is reported as memory amplification (deterministically, long before the machine runs out of memory).
+func memoryWatchdog(limit uint64) {
+	go func() {
+		var m runtime.MemStats
+		for {
+			time.Sleep(20 * time.Millisecond)
+			runtime.ReadMemStats(&m)
+			if m.HeapAlloc > limit {
+				fmt.Fprintf(os.Stderr, "fatal error: memory watchdog: heap of %d MiB while handling one small input\n", m.HeapAlloc>>20)
+				os.Exit(7)
+			}
+		}
+	}()
+}
+
 func inputsFor(class string, thorough bool) (n int, get func(i int) Input) {
 	switch class {
 	case "bytes":
@@ -45,6 +78,9 @@ func inputsFor(class string, thorough bool) (n int, get func(i int) Input) {
 		return len(l), func(i int) Input { return l[i].Input() }
 	case "huge":
 		l := Huge()
+		return len(l), func(i int) Input { return l[i] }
+	case "amplify":
+		l := cachedInputs("amplify", Amplify)
 		return len(l), func(i int) Input { return l[i] }
 	}
 	return 0, nil
@@ -76,6 +112,9 @@ func Worker(args []string) {
 	var lim syscall.Rlimit
 	lim.Cur, lim.Max = 24<<30, 24<<30
 	_ = syscall.Setrlimit(syscall.RLIMIT_AS, &lim)
+	if class == "amplify" {
+		memoryWatchdog(256 << 20)
+	}
 	e := newEnv()
 	entries := e.entries()
 	_, get := inputsFor(class, thorough)
@@ -226,7 +265,15 @@ func runRange(self, class string, start, end int, tier string, report func(findi
 		if cpuKill {
 			kind, msg = "non-termination", fmt.Sprintf("more than %.0f CPU seconds on one input", cpuBudget)
 		}
-		report(finding{key: kind + "/" + fatalClass(st, cpuKill) + "@" + topFrame(goroutineTrace(st)), what: fmt.Sprintf("process killed (%s: %s) while handling input %s; first library frame %s", kind, msg, in.Desc, topFrame(goroutineTrace(st))),
+		key := kind + "/" + fatalClass(st, cpuKill) + "@" + topFrame(goroutineTrace(st))
+		if class == "amplify" {
+			fc := fatalClass(st, cpuKill)
+			if fc == "out-of-memory" {
+				fc = "memory-amplification" // the runtime gave up before the watchdog looked
+			}
+			key = kind + "/" + fc + "/" + in.Desc // the place where memory runs out varies: one finding per input
+		}
+		report(finding{key: key, what: fmt.Sprintf("process killed (%s: %s) while handling input %s; first library frame %s", kind, msg, in.Desc, topFrame(goroutineTrace(st))),
 			detail: map[string]any{"kind": kind, "message": msg, "frame": topFrame(goroutineTrace(st)), "input_class": class, "input_index": at, "input_desc": in.Desc, "input": clip(in.Data), "stderr_head": head(st, 1500)}})
 		*evals += int64(at + 1 - start)
 		start = at + 1
@@ -239,6 +286,8 @@ func fatalClass(st string, cpu bool) string {
 		return "cpu-budget"
 	case strings.Contains(st, "stack overflow") || strings.Contains(st, "goroutine stack exceeds"):
 		return "stack-overflow"
+	case strings.Contains(st, "memory watchdog"):
+		return "memory-amplification"
 	case strings.Contains(st, "out of memory") || strings.Contains(st, "cannot allocate"):
 		return "out-of-memory"
 	case strings.Contains(st, "concurrent map"):
@@ -334,7 +383,7 @@ func Run(r *core.Run) {
 	tier := r.Tier
 	r.Rule = "entry points x inputs, executed in crash-contained worker processes: all byte strings of length <= 5 (thorough 6) over a 14-byte JSON-structural alphabet for the byte-level entry points; " +
 		"structure-aware corruption of valid operations (4 types x 2-3 key types), signed payloads and protected headers (re-signed), long-form DIDs, JWS, JWKs, patches of all 8 actions and documents: at every JSON position each value of a type-confusion alphabet, member deleted, member duplicated, re-sealed (hashes / signature / reveal value recomputed) so the corruption reaches the code behind the gates; " +
-		"an RFC 6902 grammar (6 kinds x pointers over 12 tokens to depth 2-3 x from x values, pairs after 9 structural first operations, malformed operations); huge values; " +
+		"an RFC 6902 grammar (6 kinds x pointers over 12 tokens to depth 2-3 x from x values, pairs after 9 structural first operations, malformed operations); huge values; small inputs that multiply the document (n copies of a member into itself, n as large as the shipped size limits allow; heap allowance 256 MiB); " +
 		"oracle: no panic, no fatal error, no input consuming more than the CPU budget; distinct = distinct inputs; non-trivial = all"
 	r.Assumptions = []string{"panics are recovered in the worker and reported; fatal errors kill the worker, the parent attributes the death to the announced input and restarts after it",
 		"non-termination is judged by CPU time of the worker (60 s for inputs that normally take well under 1 ms), never by wall-clock time",
@@ -355,13 +404,16 @@ func Run(r *core.Run) {
 		}
 	}
 	thorough := tier == "thorough"
-	for _, class := range []string{"structured", "huge", "bytes"} {
+	for _, class := range []string{"structured", "huge", "amplify", "bytes"} {
 		n, _ := inputsFor(class, thorough)
 		r.Extra["inputs_"+class] = n
 		t0 := time.Now()
 		workers := 16
 		if class == "huge" {
 			workers = len(Huge())
+		}
+		if class == "amplify" {
+			workers = 1 // one at a time: each may use the whole memory allowance
 		}
 		if n < workers {
 			workers = n
